@@ -80,14 +80,16 @@ def tlc_trace(module, cfg, trace, tag, timeout=1800):
                     % (trace, rc, out[-3000:]))
 
 
-def tlc_mc(module, cfg, tag, workers=4, timeout=3600, xmx="8g", extra=()):
+def tlc_mc(module, cfg, tag, workers=4, timeout=3600, xmx="8g", extra=(), coverage=None):
     """Model-checks module with cfg. Returns dict(ok, violated, states, generated, out, secs)."""
     meta = os.path.join(OUT, "tlc", tag)
     shutil.rmtree(meta, ignore_errors=True)
     t = time.time()
-    rc, out = _java({"JAVA_TOOL_OPTIONS": "-Xss512m"},
-                    ["-workers", str(workers), "-metadir", meta, "-cleanup", "-noGenerateSpecTE",
-                     "-coverage", "1", "-config", cfg] + list(extra) + [module + ".tla"], timeout, xmx=xmx)
+    rc, out = _java({"JAVA_TOOL_OPTIONS": "-Xss32m"},
+                    ["-workers", str(workers), "-metadir", meta, "-cleanup", "-noGenerateSpecTE"]
+                    # per-action coverage statistics; too costly on the deeply recursive cursor model
+                    + (["-coverage", "1"] if (coverage if coverage is not None else not module.startswith("MCCursor")) else [])
+                    + ["-config", cfg] + list(extra) + [module + ".tla"], timeout, xmx=xmx)
     shutil.rmtree(meta, ignore_errors=True)
     ms = _STATS.findall(out)
     gen, dist = (int(ms[-1][0]), int(ms[-1][1])) if ms else (0, 0)
